@@ -3,7 +3,7 @@ import copy
 import itertools
 import logging
 
-from harness import core
+from harness import core, up2v
 
 ID = 'C28'
 TITLE = 'Upserts follow their specification'
@@ -49,6 +49,17 @@ SCHEMA_COQ = ('[{| c_id := 1; c_data := true; c_default := VText [] |}; {| c_id 
               '{| c_id := 3; c_data := true; c_default := VText [] |}; {| c_id := 4; c_data := true; c_default := VInt 0 |}; '
               '{| c_id := 5; c_data := false; c_default := VNone |}; {| c_id := 6; c_data := true; c_default := VText [] |}]')
 ON_MANY = {'first': 'OnFirst', 'none': 'OnNone', 'all': 'OnAll'}
+
+
+def regenerate(ctx):
+  """The deciding code is translated from /repo's useractions.py on every run."""
+  import os
+  try:
+    text = up2v.translate(os.path.join(core.GRIST, 'useractions.py'))
+  except up2v.Untranslatable as e:
+    raise core.TieBroken('BulkAddOrUpdateRecord/AddOrUpdateRecord are outside the translated subset: %s' % e)
+  core.write_if_changed(os.path.join(core.COQ, 'gen', 'Upsert_gen.v'), text)
+  ctx.extra['regenerated'] = 'coq/gen/Upsert_gen.v (gen_upsert, gen_upsert_single) from sandbox/grist/useractions.py'
 
 
 class Unrepresentable(Exception):
@@ -276,21 +287,26 @@ Definition oks (t : table) (r : list Z * action) : exps := inl (t, r).
 Definition errs (x : error) : exps := inr x.
 Definition mkb (e : env) (t : table) (rq cv : kv) (o : options) (x : expb) := (e, t, rq, cv, o, x).
 Definition mks (e : env) (t : table) (rq cv : cells) (o : options) (x : exps) := (e, t, rq, cv, o, x).
-Definition check_bulk (c : env * table * kv * kv * options * (table * (list (list Z) * list Z * list (list Z)) + error)) : bool :=
+Definition judge_bulk (r : res (table * retval)) (exp : expb) : bool :=
+  match r, exp with
+  | Ok (t', r), inl (x, ids) => table_eqb (project keep (sort_rows t')) x && ret_eqb r ids
+  | Err a, inr b => error_eqb a b
+  | _, _ => false
+  end.
+Definition judge_single (r : res (table * (list Z * action))) (exp : exps) : bool :=
+  match r, exp with
+  | Ok (t', (ids, a)), inl (x, (ids', a')) =>
+      table_eqb (project keep (sort_rows t')) x && list_eqb Z.eqb ids ids' && action_eqb a a'
+  | Err a, inr b => error_eqb a b
+  | _, _ => false
+  end.
+(* the hand model AND the code regenerated from useractions.py (over the modelled environment) against the engine *)
+Definition check_bulk (c : env * table * kv * kv * options * expb) : bool :=
   match c with (e, t, req, cv, o, exp) =>
-    match upsert e t req cv o, exp with
-    | Ok (t', r), inl (x, ids) => table_eqb (project keep (sort_rows t')) x && ret_eqb r ids
-    | Err a, inr b => error_eqb a b
-    | _, _ => false
-    end end.
-Definition check_single (c : env * table * cells * cells * options * (table * (list Z * action) + error)) : bool :=
+    judge_bulk (upsert e t req cv o) exp && judge_bulk (gen_upsert (oenv_of e) t req cv o) exp end.
+Definition check_single (c : env * table * cells * cells * options * exps) : bool :=
   match c with (e, t, req, cv, o, exp) =>
-    match upsert_single e t req cv o, exp with
-    | Ok (t', (ids, a)), inl (x, (ids', a')) =>
-        table_eqb (project keep (sort_rows t')) x && list_eqb Z.eqb ids ids' && action_eqb a a'
-    | Err a, inr b => error_eqb a b
-    | _, _ => false
-    end end.
+    judge_single (upsert_single e t req cv o) exp && judge_single (gen_upsert_single (oenv_of e) t req cv o) exp end.
 ''' % SCHEMA_COQ
 
 
@@ -730,7 +746,7 @@ def correspond(ctx):
                       'outcome': list(outcome[:2])})
   ctx._c28 = done
   ctx.log('implementation ran on %d cases' % len(done))
-  imports = ['Grist.Model.Upsert']
+  imports = ['Grist.Model.Upsert', 'Grist.Lib.UpsertPrelude', 'GristGen.Upsert_gen', 'Grist.Proofs.Upsert_bridge']
   bad = ctx.run_cases('bulk', imports, 'check_bulk', [t for _, t in bulk], shard=100, extra_defs=EXTRA_DEFS)
   for i in bad[:5]:
     case, r = done[bulk[i][0]]
